@@ -715,6 +715,23 @@ theorem nested_resource_reference_regression :
     offeredAll (fun r => shortName r.type) (serviceResources api [⟨"Rq".toList, "E".toList, none⟩]) []
       "Inner".toList = some inner := by decide
 
+/-- **a resource the API itself declares under a common resource TYPE** (file-level
+`locations.googleapis.com/Location` with its own pattern, only named by the request) is an ordinary
+visible resource: it gets `location_path` for ITS pattern next to `common_location_path` for the
+built-in one — the names differ, so neither proviso of `helper_for_every_visible_resource` bites
+(the clause seed6_C19 removed). -/
+theorem common_typed_declared_resource_regression :
+    let own : Res := ⟨"locations.googleapis.com/Location".toList, "organizations/{organization}/locations/{location}".toList⟩
+    let builtin : Res := ⟨"locations.googleapis.com/Location".toList, "projects/{project}/locations/{location}".toList⟩
+    let api : Api := { files := [⟨[own], ["Rq".toList, "E".toList]⟩],
+                       msgs := [⟨"Rq".toList, [⟨none, some "locations.googleapis.com/Location".toList⟩], none⟩,
+                                ⟨"E".toList, [], none⟩] }
+    let rs := serviceResources api [⟨"Rq".toList, "E".toList, none⟩]
+    let nm : Res → Name := fun r => (shortName r.type).map Char.toLower
+    rs = [own] ∧
+    offeredAll nm rs [("common_location".toList, builtin)] "location".toList = some own ∧
+    offeredAll nm rs [("common_location".toList, builtin)] "common_location".toList = some builtin := by decide
+
 end VisibilityExamples
 
 end GapicModel.Props.C19
